@@ -166,8 +166,8 @@ WM_CONTRACT = {"id": "WM-contract", "text": "whatever the REAL word_match return
 WM_PREFIX = {"id": "WM-prefix", "text": "if the query word is the k-letter prefix of the title word (same characters and classes), unfinished - or "
                                          "finished when k = |word| - the REAL word_match matches and reports exactly the span (0,k) on both sides with zero typos",
              "bounds": "(|r|,k,stem_r,stem_q,finished) from the instance names, |r| <= 3", "opts": WM_OPTS,
-             "quick": ["wm_pre_1_1_1_1_u", "wm_pre_1_1_1_1_f", "wm_pre_2_1_2_1_u", "wm_pre_2_2_2_2_u", "wm_pre_2_2_1_1_f", "wm_pre_2_2_1_1_u", "wm_pre_3_1_3_1_u"],
-             "thorough": ["wm_pre_3_2_3_2_u", "wm_pre_3_2_2_1_u", "wm_pre_3_3_3_3_u", "wm_pre_3_3_2_2_f", "wm_pre_3_3_1_1_u", "wm_pre_3_2_1_1_u", "wm_pre_3_3_1_2_u"],
+             "quick": ["wm_pre_1_1_1_1_u", "wm_pre_1_1_1_1_f", "wm_pre_2_1_2_1_u", "wm_pre_2_2_2_2_u", "wm_pre_2_2_1_1_f", "wm_pre_2_2_1_1_u", "wm_pre_3_1_3_1_u", "wm_pre_3_2_3_2_u"],
+             "thorough": ["wm_pre_3_2_2_1_u", "wm_pre_3_3_3_3_u", "wm_pre_3_3_2_2_f", "wm_pre_3_3_1_1_u", "wm_pre_3_2_1_1_u", "wm_pre_3_3_1_2_u"],
              "per_instance": {"wm_pre_3_3_1_1_u": {"mem_gb": 44, "timeout": 3000}, "wm_pre_3_2_1_1_u": {"mem_gb": 30, "timeout": 3000},
                               "wm_pre_3_3_1_2_u": {"mem_gb": 44, "timeout": 3000}, "wm_pre_3_2_2_1_u": {"mem_gb": 24}}}
 WM_GATES = {"id": "WM-gates", "text": "for a k-letter prefix (unfinished; or the finished exact copy when k = n) of an n-letter title word the REAL "
@@ -282,8 +282,8 @@ PROPS["C04"] = {
                                         "jaccard_check both accept",
          "bounds": "n = 5: all four edit kinds; n = 6: deletion and transposition (substitution / insertion at n = 6 take > 35 min each); position symbolic; all chars and classes symbolic",
          "opts": {"unwind": 9, "timeout": 3000, "checks": "functional", "mem_gb": 10},
-         "quick": ["wm_gtypo_5_del", "wm_gtypo_5_tr"],
-         "thorough": ["wm_gtypo_5_sub", "wm_gtypo_5_ins", "wm_gtypo_6_del", "wm_gtypo_6_tr"]},
+         "quick": ["wm_gtypo_5_del", "wm_gtypo_5_tr", "wm_gtypo_5_sub"],
+         "thorough": ["wm_gtypo_5_ins", "wm_gtypo_6_del", "wm_gtypo_6_tr"]},
         {"id": "DL-typo", "text": "for the same pairs the REAL DamerauLevenshtein::distance is at most 1, its ratio to the longer length is within the matcher's "
                                   "threshold 0.21, and the matrix cell the matcher reads for the full pair holds that distance",
          "bounds": "n = 5: substitution, deletion, transposition (insertion = 5x6 exceeds 12 GB); n = 6: deletion only (6x6 has 26 M variables); all chars and (letter) classes symbolic", "opts": {"unwind": 9, "timeout": 3000, "checks": "functional", "mem_gb": 12},
